@@ -19,6 +19,9 @@ EXPLANATION = (
     'promises or differs from the complete file only in the hash slot. C18.3: the reader derives footer offsets only '
     'for the stated number of arrays (assertion len(stored keys) == n_header_arrays on the only path that creates '
     'FileOffset values).')
+EXPLANATION += (
+    ' ADDED: C18.4: a short read raised inside a pool worker reaches the caller (futures consumed or map iterated; no swallowing handler) - the rule of C17.1 / C17.4, because it is what turns a truncated data section into an exception.'
+)
 ASSUMPTIONS = [
     'file.read(n) returns fewer than n bytes only at end of file',
     'writes to one handle reach the file in program order (buffered I/O; a crash truncates a suffix)',
